@@ -79,7 +79,11 @@ func genC19(r *sim.Rand, tier string) *sim.Program {
 	p.SetCB("k2", r.Bytes(kl))
 	nops := r.Range(2, 14)
 	isCmac := c19Constructions[con] == "cmac"
+	bigMsgs := r.Chance(1, 40)
 	msgLen := func() int {
+		if bigMsgs && r.Chance(1, 2) {
+			return r.Range(8*bs, 160*bs)
+		}
 		return r.Near(6*bs+3, 0, 1, bs-1, bs, bs+1, 2*bs-1, 2*bs, 2*bs+1, 3*bs, 4*bs+bs/2)
 	}
 	for i := 0; i < nops; i++ {
